@@ -9,6 +9,15 @@ import shutil as _shutil
 import tempfile as _tempfile
 
 
+# the errno of an injected failure varies with the call index: "disk full", I/O error, "device busy",
+# "cross-device link", quota, permission — code that special-cases one of them is exercised too
+_ERRNOS = (28, 5, 16, 18, 122, 13, 27)
+
+
+def _errno_for(k):
+    return _ERRNOS[k % len(_ERRNOS)]
+
+
 class Ctl:
     def __init__(self):
         self.reset()
@@ -33,7 +42,7 @@ class Ctl:
             self.failed = ev
             if self.fail_after and ev[0] in ("flush", "fsync", "close"):
                 return True
-            raise OSError(28, f"injected ENOSPC at step {k} {ev}")
+            raise OSError(_errno_for(k), f"injected OSError at step {k} {ev}")
         return False
 
 
@@ -80,7 +89,7 @@ class FProxy:
                 after = CTL.before(ev)
                 r = a(*x, **k)
                 if after:
-                    raise OSError(28, f"injected ENOSPC after {ev}")
+                    raise OSError(_errno_for(CTL.n), f"injected OSError after {ev}")
                 return r
 
             return w
@@ -103,7 +112,7 @@ class FProxy:
         after = CTL.before(("close", self._role, None))
         r = self._f.__exit__(*a)
         if after:
-            raise OSError(28, "injected after close")
+            raise OSError(_errno_for(CTL.n), "injected after close")
         return r
 
 
@@ -168,7 +177,7 @@ class OsP:
                 after = CTL.before(ev)
                 r = a(*x, **k)
                 if after:
-                    raise OSError(28, f"injected ENOSPC after {ev}")
+                    raise OSError(_errno_for(CTL.n), f"injected OSError after {ev}")
                 return r
 
             return w
